@@ -60,6 +60,7 @@ func (hc *CothorityConfig) Save(file string) error {
 	if err != nil {
 		return xerrors.Errorf("opening config file: %v", err)
 	}
+	defer fd.Close()
 	fd.WriteString("# This file contains your private key.\n")
 	fd.WriteString("# Do not give it away lightly!\n")
 	err = toml.NewEncoder(fd).Encode(hc)
